@@ -32,7 +32,7 @@ ASSUMPTIONS = ["remove_trait is excluded (documented to emit no event)",
 
 LINKS = ["child", "children", "table", "group", "+metac", "+metal", "mlist", "tlists"]
 CONTAINER_LINKS = ("children", "table", "group", "+metal", "mlist", "tlists")
-INST_ATTRS = ["child", "mchild"]
+INST_ATTRS = ["child", "mchild", "zchild"]
 LIST_ATTRS = ["children", "mlist"]
 SKIP = (None, Undefined, Uninitialized)
 
@@ -47,6 +47,8 @@ class Node(HasTraits):
     # link traits selected by metadata ("+metac", "+metal" used as intermediate links)
     mchild = Instance(HasTraits, metac=True)
     mlist = List(Instance(HasTraits), metal=True)
+    # the same metadata DEFINED BUT FALSY: "+metac" selects every trait whose metadata value is not None
+    zchild = Instance(HasTraits, metac=0)
     # containers inside a container: Dict(Str, List(...)), observed as tlists.items.items
     tlists = Dict(Str, List(Instance(HasTraits)))
 
@@ -196,7 +198,7 @@ P = st.integers(0, 5)
 # owner of a mutation: [1, i] = i-th object currently touched by the expression walk (construction: ops land where
 # they matter), [0, i] = i-th pool object
 O = st.tuples(st.sampled_from([0, 1, 1, 1]), st.integers(0, 5)).map(list)
-IA = st.sampled_from([0, 0, 1])          # index into INST_ATTRS
+IA = st.sampled_from([0, 0, 1, 2])       # index into INST_ATTRS
 LA = st.sampled_from([0, 0, 1])          # index into LIST_ATTRS
 OP = st.one_of(
     st.tuples(st.just("set_child"), O, st.integers(-1, 5), IA), st.tuples(st.just("set_child"), O, st.integers(-1, 5), IA),
